@@ -10,6 +10,7 @@ import (
 	"sort"
 	"strings"
 	"sync"
+	"sync/atomic"
 	"testing"
 	"testing/synctest"
 	"time"
@@ -359,10 +360,124 @@ func (b *blockingWriter) WriteHeader(code int) {
 	b.ResponseRecorder.WriteHeader(code)
 }
 
+// getLimitWithTimeout: see the call site.
+func getLimitWithTimeout(sub *vf.Sub, C, round int) bool {
+	dir := sysrun.ScratchDir("C18", "conct", C*1000+round)
+	defer os.RemoveAll(dir)
+	gate := make(chan struct{})
+	entered := make(chan struct{})
+	var once sync.Once
+	in, err := sim.Start(sim.Options{ConfigYAML: simpleConfig().YAML(), Dir: dir, GetConcurrency: C, HTTPTimeout: time.Hour,
+		OnSilenceBroadcast: func(*sim.Instance, []byte) { once.Do(func() { close(entered); <-gate }) }})
+	if err != nil {
+		sub.Inconclusive(err.Error())
+		return false
+	}
+	defer in.Stop()
+	far := time.Now().Add(time.Hour)
+	var wg sync.WaitGroup
+	wg.Add(1)
+	go func() {
+		defer wg.Done()
+		in.PostSilence(sim.PostableSilence{Matchers: sim.APIMatchers([]model.Matcher{{Name: "a", Op: "=", Value: "b"}}), StartsAt: time.Now(), EndsAt: far, CreatedBy: "v", Comment: "c"})
+	}()
+	released := false
+	release := func() {
+		if !released {
+			released = true
+			close(gate)
+		}
+	}
+	defer release()
+	select {
+	case <-entered:
+	case <-time.After(20 * time.Second):
+		sub.Inconclusive("the blocking gossip callback was never reached")
+		return false
+	}
+	codes := make([]int, C)
+	var retried atomic.Int64
+	for k := 0; k < C; k++ {
+		wg.Add(1)
+		go func(k int) {
+			defer wg.Done()
+			for { // a client that retries until admitted (a probe below may hold the slot for a moment)
+				rec := httptest.NewRecorder()
+				in.VI.Handler().ServeHTTP(rec, httptest.NewRequest("GET", "/api/v2/silences", nil))
+				codes[k] = rec.Code
+				if rec.Code != http.StatusServiceUnavailable {
+					return
+				}
+				retried.Add(1)
+				time.Sleep(time.Millisecond)
+			}
+		}(k)
+	}
+	// The registry cannot be gathered while the store's lock is held (the silence gauges read the
+	// store), so the limiter is observed through its behaviour: the C held requests cannot complete,
+	// hence once they are inside, a GET of a non-blocking path is refused. Poll until the first 503
+	// (each earlier probe briefly takes a free slot and returns 200); never seeing one within a
+	// generous grace period means held requests are not counted against the limit.
+	probe := func(p string) int {
+		done := make(chan int, 1)
+		go func() {
+			rec := httptest.NewRecorder()
+			in.VI.Handler().ServeHTTP(rec, httptest.NewRequest("GET", p, nil))
+			done <- rec.Code
+		}()
+		select {
+		case code := <-done:
+			return code
+		case <-time.After(10 * time.Second):
+			return -1 // entered the handler and blocks there
+		}
+	}
+	refused := 0
+	deadline := time.Now().Add(10 * time.Second)
+	saturated := false
+	for time.Now().Before(deadline) {
+		if probe("/api/v2/status") == http.StatusServiceUnavailable {
+			saturated = true
+			refused++
+			break
+		}
+		time.Sleep(time.Millisecond)
+	}
+	if !saturated {
+		sub.Violation("get-beyond-the-concurrency-limit-not-refused-with-503", map[string]any{"limit": C, "web_timeout": "1h", "note": "C GETs of /silences are blocked inside the handler (store lock held), yet GET /status was never refused during 10 s"})
+	} else {
+		for _, p := range []string{"/api/v2/alerts", "/api/v2/alerts/groups", "/api/v2/status", "/api/v2/silences"} {
+			if code := probe(p); code != http.StatusServiceUnavailable {
+				sub.Violation("get-beyond-the-concurrency-limit-not-refused-with-503", map[string]any{"limit": C, "path": p, "code": code, "web_timeout": "1h"})
+			} else {
+				refused++
+			}
+		}
+	}
+	if code, body := in.PostAlerts(sim.PostableAlert{Labels: model.Labels{"alertname": "A"}, EndsAt: &far}); code != 200 {
+		sub.Violation("post-refused-while-gets-are-saturated", map[string]any{"limit": C, "code": code, "body": body, "web_timeout": "1h"})
+	}
+	release()
+	wg.Wait()
+	for _, c := range codes {
+		if c != 200 {
+			sub.Violation("held-get-did-not-complete-with-200", map[string]any{"limit": C, "code": c, "web_timeout": "1h"})
+		}
+	}
+	if g := in.Metric("alertmanager_http_requests_in_flight", nil); g != 0 {
+		sub.Violation("in-flight-gauge-not-back-to-zero", map[string]any{"limit": C, "gauge": g, "web_timeout": "1h"})
+	}
+	if n := in.Metric("alertmanager_http_concurrency_limit_exceeded_total", nil); int(n) != refused+int(retried.Load()) {
+		sub.Violation("refused-get-not-counted", map[string]any{"limit": C, "counter": n, "refused": refused + int(retried.Load()), "web_timeout": "1h"})
+	}
+	sub.Count("rounds_with_web_timeout", 1)
+	return true
+}
+
 // TestGetConcurrencyLimit: deterministic, no wall clock decides.
 func TestGetConcurrencyLimit(t *testing.T) {
 	run := vf.Cur()
-	sub := run.Sub("get-concurrency", "real app with GET concurrency limit C in {1,2,3,5}: C GET requests are held in flight by response writers that block until released; every further GET (alerts, groups, silences, status) must be refused with 503 and counted by alertmanager_http_concurrency_limit_exceeded_total, POSTs of alerts and silences must succeed meanwhile, the in-flight gauge must read C, and after release all held requests complete with 200 and the gauge returns to 0; also run with real parallel requests under the race detector; non-trivial = every case; distinct by (C, round)", 8)
+	sub := run.Sub("get-concurrency", "real app with GET concurrency limit C in {1,2,3,5}: C GET requests are held in flight by response writers that block until released; every further GET (alerts, groups, silences, status) must be refused with 503 and counted by alertmanager_http_concurrency_limit_exceeded_total, POSTs of alerts and silences must succeed meanwhile, the in-flight gauge must read C, and after release all held requests complete with 200 and the gauge returns to 0; the same with a web timeout configured (requests behind http.TimeoutHandler; GETs of /silences held inside the handler by a blocked gossip callback); also run with real parallel requests under the race detector; non-trivial = every case; distinct by (C, round)", 8)
 	for _, C := range []int{1, 2, 3, 5} {
 		for round := 0; round < run.N(4, 200)/4+1; round++ {
 			dir := sysrun.ScratchDir("C18", "conc", C*1000+round)
@@ -447,6 +562,13 @@ func TestGetConcurrencyLimit(t *testing.T) {
 			sub.Count("parallel_503", int64(codes[503]))
 			in.Stop()
 			os.RemoveAll(dir)
+			// the same with a web timeout configured (requests then run behind http.TimeoutHandler, which
+			// buffers the response: a blocking response writer no longer holds a request inside the
+			// limiter). There C GETs of /silences are held INSIDE the handler: a silence is being created
+			// whose gossip callback (invoked under the store's lock) blocks until released.
+			if ok {
+				ok = getLimitWithTimeout(sub, C, round)
+			}
 			sub.Case(vf.Digest(C, round), ok)
 		}
 	}
